@@ -57,7 +57,7 @@ func classifyMag(v int64) string {
 
 func runC13(rc *RunCtx) {
 	tokens := []int64{0, 1, 2, 3, 7, 100, 4_200_000, 1_000_000_000_000, 300_000_000_000_000_000, 9_000_000_000_000_000_000}
-	decr := []int64{0, 6, 5_255_999, 5_256_000, 5_256_001, 10_512_000, 100_000_000}
+	decr := []int64{0, 6, 5_255_999, 5_256_000, 5_256_001, 10_512_000, 100_000_000, 9_223_372_036_854_775_807, 9_223_372_036_850_000_000, 4_611_686_018_427_387_904} // the last three: the validator only demands >= 0
 	type triple struct{ s, d, p int64 }
 	triples := []triple{{80, 8, 12}, {100, 0, 0}, {0, 0, 0}, {0, 100, 0}, {0, 0, 100}, {33, 33, 33}, {1, 1, 1}, {50, 25, 25}, {10, 0, 45}}
 	var tr triple
